@@ -87,16 +87,15 @@ def detector_vote(m, r):
         r.error("get_source_info_str: the free-form flag set by the voting loop was not found")
         return None
 
+    ev.g["FortranFormat"] = lambda is_free, is_strict, *a, **k: (is_free, is_strict)
+
     def vote(text):
-        # one iteration of the voting loop on one physical line, interpreted from the AST
-        env = {"lines": [text], flag: False, "line_tally": 10000}
-        try:
-            ev.block(loop.body, env)
-        except PE._Break:
-            pass
-        except PE._Continue:
-            pass
-        return bool(env[flag])
+        # the whole detector interpreted on a source that consists of this one physical line (so any state the loop keeps from
+        # line to line starts from its initial value)
+        res = ev.run_function(f.node, [text])
+        if not (isinstance(res, tuple) and len(res) == 2):
+            raise PE.Unsupported("get_source_info_str returns %r" % (res,))
+        return bool(res[0])
     return vote, f, vote_if
 
 
@@ -162,6 +161,9 @@ def c05_rules(m):
             for base in ("      x = 1 + &", "      call foo(a, &", "   10 y = 2 &"):
                 cases.append(("trailing-&", base, True))
             cases.append(("tab", "\tx = 1", False))
+            # a statement with its label, starting in columns 1-5
+            for text in ("30 return", "100 format (a)", "10 x = 1", " 20 continue", "1 i=2"):
+                cases.append(("labelled free", text, True))
             bad = {}
             for kind, text, want in cases:
                 r.instances += 1
